@@ -173,6 +173,7 @@ def _replay(a) -> Dict[str, Any]:
                 with os.fdopen(w, "wb") as f:
                     f.write(json.dumps(res).encode())
             finally:
+                common.cov_save()
                 os._exit(0)
         os.close(w)
         with os.fdopen(r, "rb") as f:
